@@ -6,13 +6,19 @@
 (* (ghost rotation counters inferred from key changes at the node's own tick), so that the  *)
 (* two recorded findings are recognised and any other way of diverging is reported.         *)
 EXTENDS TraceKit
-VARIABLES l, viol, ra, rb, pka, pkb, nchecked
-vars == <<l, viol, ra, rb, pka, pkb, nchecked>>
+VARIABLES l, viol, ra, rb, pka, pkb, nchecked,
+          la, lb,      \* ghost: instant at which the end last registered key material for the session (handshake) or rotated it
+          iva, ivb,    \* the two ends' rotation intervals (ms), from the reset event
+          early        \* ghost: some rotation since the session was (re-)established came before that end's interval had elapsed
+vars == <<l, viol, ra, rb, pka, pkb, nchecked, la, lb, iva, ivb, early>>
 Init == l = 1 /\ viol = <<>> /\ ra = 0 /\ rb = 0 /\ pka = -1 /\ pkb = -1 /\ nchecked = 0
+        /\ la = 0 /\ lb = 0 /\ iva = 0 /\ ivb = 0 /\ early = FALSE
 Step(e) ==
   IF e.op = "reset" THEN
      LET bad == IF e.connected /\ e.ca /\ e.cb /\ e.ka # e.kb THEN {"C39.keys-differ-after-handshake"} ELSE {} IN
      /\ ra' = 0 /\ rb' = 0 /\ pka' = e.ka /\ pkb' = e.kb /\ nchecked' = nchecked + 1
+     \* A registers the handshake key, `skew` ms later B does (the event is logged after both)
+     /\ la' = e.t - e.skew /\ lb' = e.t /\ iva' = e.ia /\ ivb' = e.ib /\ early' = FALSE
      /\ viol' = IF bad = {} THEN viol ELSE Append(viol, Fail(l, bad, e))
   ELSE IF e.op = "rehs" THEN
      \* one end handshook again and reconnected while the old connection was up; when that end's handshake went through, the session is
@@ -20,17 +26,29 @@ Step(e) ==
      LET bad == IF e.hs /\ e.ca /\ e.cb /\ e.ka # e.kb THEN {"C39.keys-differ-after-rehandshake"} ELSE {}
          fresh == e.hs /\ e.ka = e.kb IN
      /\ ra' = (IF fresh THEN 0 ELSE ra) /\ rb' = (IF fresh THEN 0 ELSE rb) /\ pka' = e.ka /\ pkb' = e.kb /\ nchecked' = nchecked + 1
+     /\ la' = (IF e.ka # pka \/ fresh THEN e.t ELSE la) /\ lb' = (IF e.kb # pkb \/ fresh THEN e.t ELSE lb)
+     /\ early' = (IF fresh THEN FALSE ELSE early) /\ UNCHANGED <<iva, ivb>>
      /\ viol' = IF bad = {} THEN viol ELSE Append(viol, Fail(l, bad, e))
   ELSE
-     LET ra2 == IF e.op = "tick" /\ e.n = "a" /\ e.ka # pka THEN ra + 1 ELSE ra
-         rb2 == IF e.op = "tick" /\ e.n = "b" /\ e.kb # pkb THEN rb + 1 ELSE rb
-         outside == (e.ka # pka /\ ~(e.op = "tick" /\ e.n = "a")) \/ (e.kb # pkb /\ ~(e.op = "tick" /\ e.n = "b"))
+     LET ra2 == IF e.op \in {"tick", "tickrace"} /\ e.n = "a" /\ e.ka # pka THEN ra + 1 ELSE ra
+         rb2 == IF e.op \in {"tick", "tickrace"} /\ e.n = "b" /\ e.kb # pkb THEN rb + 1 ELSE rb
+         \* (a tickrace event also contains the other end's handshake: both keys may change in it)
+         outside == e.op # "tickrace" /\ ((e.ka # pka /\ ~(e.op = "tick" /\ e.n = "a")) \/ (e.kb # pkb /\ ~(e.op = "tick" /\ e.n = "b")))
          diverged == e.ca /\ e.cb /\ e.ka # e.kb
-         bad == (IF diverged THEN {IF ra2 # rb2 THEN "C39.keys-diverged/unilateral-rotation"
+         \* a rotation at the node's own tick is due only once that end's interval has elapsed since it registered / last rotated the key
+         \* (KeyRotation.tla: Due).  tbase: the instant the racing tick of a tickrace event took as "now"
+         tnow == IF Has(e, "tbase") THEN e.tbase ELSE e.t
+         rotA == e.op \in {"tick", "tickrace"} /\ e.n = "a" /\ e.ka # pka
+         rotB == e.op \in {"tick", "tickrace"} /\ e.n = "b" /\ e.kb # pkb
+         early2 == early \/ (rotA /\ tnow - la < iva) \/ (rotB /\ tnow - lb < ivb)
+         bad == (IF diverged THEN {IF early2 THEN "C39.keys-diverged/rotation-before-interval"
+                                    ELSE IF ra2 # rb2 THEN "C39.keys-diverged/unilateral-rotation"
                                     ELSE IF ra2 > 0 THEN "C39.keys-diverged/kdf-uses-local-timestamp"
                                     ELSE "C39.keys-diverged/without-rotation"} ELSE {})
                 \cup (IF outside THEN {"C39.key-changed-outside-own-tick"} ELSE {})
      IN /\ ra' = ra2 /\ rb' = rb2 /\ pka' = e.ka /\ pkb' = e.kb /\ nchecked' = nchecked + 1
+        /\ la' = (IF rotA THEN tnow ELSE IF e.op = "tickrace" THEN e.t ELSE la) /\ lb' = (IF rotB THEN tnow ELSE IF e.op = "tickrace" THEN e.t ELSE lb)
+        /\ early' = early2 /\ UNCHANGED <<iva, ivb>>
         /\ viol' = IF bad = {} THEN viol ELSE Append(viol, Fail(l, bad, e))
 Next == l <= Len(T) /\ l' = l + 1 /\ Step(T[l])
 Spec == Init /\ [][Next]_vars
